@@ -180,6 +180,17 @@ fn apply_bsd0_patch(patch: &PatchFile, base_data: &[u8]) -> Result<Vec<u8>> {
     // Number of control blocks (each is 12 bytes: 3x u32)
     let num_ctrl_blocks = ctrl_block_size / 12;
 
+    // Every output byte is copied from the data block or the extra block, so the
+    // declared size cannot exceed what those two blocks hold. Check this before
+    // allocating the output buffer from the (untrusted) header value.
+    if new_file_size > data_block.len() + extra_block.len() {
+        return Err(Error::invalid_format(format!(
+            "BSD0 new file size {new_file_size} exceeds data block ({}) + extra block ({})",
+            data_block.len(),
+            extra_block.len()
+        )));
+    }
+
     // Allocate output buffer
     let mut new_data = vec![0u8; new_file_size];
 
